@@ -21,10 +21,10 @@ claim("C05", "Coq proof (LZSS round trip for all token streams and dialects; cal
       NOTE, "4/C05")
 
 claim("C09", "Coq proof (Hoare logic over a ledger monitor, for every host) on the SZDD/LZSS and KWAJ ports + L2 model/C callback correspondence with fault injection + fault sweep of the C library",
-      "Proof: for every oracle (all inputs and all combinations of open/read/write/seek/alloc failures), the SZDD scripts (create; decompress; destroy / create; open; extract x2; close; destroy) leave no live allocation and no open handle and never free/close anything not live (2 theorems, closed). The port is tied to szddd.c+lzssd.c by identical callback traces under every single fault. The other four front ends (CAB, CHM, KWAJ, OAB) are covered by the fault sweep of the real library only (ledger read from the instrumented system) - stated as partial.",
+      "Proof: for every oracle (all inputs and all combinations of open/read/write/seek/alloc failures), the SZDD and the KWAJ scripts (create; decompress; destroy / create; open; extract x2; close; destroy) leave no live allocation and no open handle and never free/close anything not live (4 theorems, closed; KWAJ: the LZH and MSZIP decoders are abstract programs assumed to preserve the ledger). The ports are tied to szddd.c+lzssd.c and kwajd.c by identical callback traces under every single fault. The other three front ends (CAB, CHM, OAB) are covered by the fault sweep of the real library only (ledger read from the instrumented system) - stated as partial.",
       NOTE, "4/C09")
 claim("C20", "Coq proof (contract monitor, for every host) on the SZDD/LZSS and KWAJ ports + L2 model/C callback correspondence + contract monitor in the instrumented system over all front ends",
-      "Proof: for every oracle the SZDD scripts never raise the monitor's flag: open modes match name kinds, read/write/seek/tell/message only on open handles of the right mode, sizes non-negative, whence in range, free only of NULL or live pointers (2 theorems, closed). Tie as for C09. For CAB/CHM/KWAJ/OAB the same predicate (plus buffer capacity via ASan, copy overlap, filename identity) is checked on the C side only, over corpus/generated/damaged inputs with sampled single faults - partial.",
+      "Proof: for every oracle the SZDD and KWAJ scripts never raise the monitor's flag: open modes match name kinds, read/write/seek/tell/message only on open handles of the right mode, sizes non-negative, whence in range, free only of NULL or live pointers (4 theorems, closed; KWAJ with abstract LZH / MSZIP decoders). Tie as for C09. For CAB/CHM/OAB the same predicate (plus buffer capacity via ASan, copy overlap, filename identity) is checked on the C side only, over corpus/generated/damaged inputs with sampled single faults - partial.",
       NOTE, "4/C20")
 
 claim("C02", "Coq proof (buffer-bound invariant, regenerated array extents, lifetimes for every host on the SZDD port) + ASan/UBSan sweep with fault injection over all front ends",
@@ -36,7 +36,7 @@ claim("C07", "Coq proof (output accounting of the frame loop with an abstract pe
       NOTE, "4/C07")
 
 claim("C10", "Coq proof (host-failure tracking in the monitor semantics, for every host) on the SZDD/LZSS and KWAJ ports + L2 correspondence + single-fault sweep of all front ends vs the failure-free run",
-      "Proof: for every host, the SZDD decompress script returns last_error = status, and status OK implies that no callback failed anywhere in the script (open/alloc NULL, read error, short or failed write, seek failure) - so an OK result is the failure-free result; wrong SZDD signatures are refused with MSPACK_ERR_SIGNATURE. Tie: identical callback traces/statuses/outputs of port and C under every single fault. CAB/CHM/KWAJ/OAB: each fired single fault on every corpus scenario is compared op by op with the failure-free run on the C side only (partial).",
+      "Proof: for every host, the SZDD and the KWAJ decompress scripts return last_error = status, and status OK implies that no callback failed anywhere in the script (open/alloc NULL, read error, short or failed write, seek failure) - so an OK result is the failure-free result; wrong SZDD / KWAJ signatures are refused with MSPACK_ERR_SIGNATURE (KWAJ: tree predicates of Proofs/Rep.v; abstract LZH / MSZIP decoders assumed to report). Tie: identical callback traces/statuses/outputs of ports and C under every single fault. CAB/CHM/OAB: each fired single fault on every corpus scenario is compared op by op with the failure-free run on the C side only (partial).",
       NOTE, "4/C10")
 
 claim("C08", "Coq proof (cache-coherence invariant of the decoder-reuse rule, any history; resumability of the real MSZIP port) + random and directed extraction histories vs a fresh decompressor on the C library",
@@ -44,7 +44,7 @@ claim("C08", "Coq proof (cache-coherence invariant of the decoder-reuse rule, an
       NOTE, "4/C08")
 
 claim("C11", "Coq proof (bisimulation: run independent of the contents of fresh memory, for every host) on the SZDD/LZSS and KWAJ ports + differential runs of the C library under four allocator fill patterns (hostile inputs: five more, small values that pass for code lengths)",
-      "Proof: for every host and any two contents of freshly allocated memory the complete run of the SZDD scripts (result, every callback with its bytes, ledger) is identical. Tie: L2 correspondence. LZX (early-match rejection), MSZIP, Quantum, KWAJ-LZH, CAB and CHM paths are covered on the C side only: every corpus scenario and hostile inputs reaching unwritten memory are run under four allocator fill patterns and must give identical statuses, listings and bytes - partial.",
+      "Proof: for every host and any two contents of freshly allocated memory the complete run of the SZDD and KWAJ scripts (result, every callback with its bytes, ledger) is identical. Tie: L2 correspondence. LZX (early-match rejection), MSZIP, Quantum, KWAJ-LZH, CAB and CHM paths are covered on the C side only: every corpus scenario and hostile inputs reaching unwritten memory are run under four allocator fill patterns and must give identical statuses, listings and bytes - partial.",
       NOTE, "4/C11")
 
 claim("C04", "Coq proof (fuel bounds: LZSS loop, search resumption, CHM chunk walk for every link structure) + per-call edge-count budget on the C library built with coverage callbacks",
